@@ -191,7 +191,8 @@ class DeferredSnapshotActionResult(ActionResult):
                 decorate = decorator.decorate(self.snapshot.id_str, self.action_context)
                 if decorate is not None:
                     attributes.merge_in(decorate)
-            except Exception:
+            except BaseException:
+                # (BaseException: a plugin can fail with e.g. asyncio.CancelledError, which is not an Exception)
                 deep.logging.exception("Failed to decorate snapshot: %s ", decorator)
         self.snapshot.attributes.merge_in(attributes)
         return self.snapshot
